@@ -374,8 +374,17 @@ fn main() {
         let aggsel = !oob && k % 15 == 7;
         // every 6th program is a near-duplicate family program (an ORDINARY stream: fn-dedup / const demotion)
         let neardup = !oob && !aggsel && k % 6 == 3;
-        let p = if neardup { gen_neardup_program(&mut r, k) } else { gen_program(&mut r, k, oob, aggsel) };
-        items.push(Item { kind: if oob { "prog-oob".to_string() } else if aggsel { "prog-aggsel".to_string() } else if neardup { "prog-neardup".to_string() } else { "prog".to_string() }, sexp: p.to_sexp(), sw: p.to_sw(), test: p.test_name() });
+        // every 15th program may contain the shape of finding F6 (`prog-selfupd`)
+        let selfupd = !oob && !aggsel && !neardup && k % 15 == 13;
+        let p = if neardup { gen_neardup_program(&mut r, k) } else { gen_program(&mut r, k, oob, aggsel, selfupd) };
+        items.push(Item { kind: if oob { "prog-oob".to_string() } else if aggsel { "prog-aggsel".to_string() } else if neardup { "prog-neardup".to_string() } else if selfupd { "prog-selfupd".to_string() } else { "prog".to_string() }, sexp: p.to_sexp(), sw: p.to_sw(), test: p.test_name() });
+    }
+    if std::env::var("VERIF_C01_DUMP_ONLY").is_ok() {
+        // write the generated sources (one file) and stop: used to look at a program by name
+        let mut src = package_prelude();
+        for it in &items { src.push_str(&format!("// {} {}\n", it.kind, it.test)); src.push_str(&it.sw); }
+        std::fs::write(&a.out, src).unwrap();
+        return;
     }
     let t0 = std::time::Instant::now();
     // e2e scripts: `--e2e N` or `--e2e auto` (3 in the quick tier, 12 in the thorough tier); their worker
